@@ -404,7 +404,31 @@ func runC04(c *mc.Ctx) {
 		}
 		cases = append(cases, extra...)
 	}
-	c.Space("paths over the index alphabet (with every neutering point; last step also from a parent object used before)", int64(len(cases)))
+	// (a3) index CONTENT: the alphabet's indices have equal middle bytes (00 00 / ff ff); ser32(i) goes
+	// byte by byte into the HMAC input, so every byte position gets its own values here: one byte set
+	// (01, 80, ff) at each of the four positions, and patterned indices with four different bytes, as
+	// the last step of paths of length 1 and 2, private and (non-hardened) from the neutered parent
+	{
+		var idx []uint32
+		for k := uint(0); k < 4; k++ {
+			for _, b := range []uint32{0x01, 0x80, 0xff} {
+				idx = append(idx, b<<(8*k), b<<(8*k)|0x80000000)
+			}
+		}
+		idx = append(idx, 0x01020304, 0x81020304, 0x12345678, 0x92345678, 0xfedcba98, 0x7edcba98, 0x00ff00ff, 0x80ff00ff, 0x7f00ff00, 0xff00ff00, 0x00010000, 0x80010000, 0x0000ffff, 0x8000ffff, 65535, 65536, 0x80000100, 256, 1000, 0x800003e8)
+		for si, sd := range seeds {
+			for _, i := range idx {
+				for _, pre := range [][]uint32{{}, {0x80000000}, {1}} {
+					path := append(append([]uint32{}, pre...), i)
+					cases = append(cases, c04Path{Net: nets[si], Seed: sd, Path: path, NeuterAt: -1})
+					if i < 0x80000000 {
+						cases = append(cases, c04Path{Net: nets[si], Seed: sd, Path: path, NeuterAt: len(path) - 1})
+					}
+				}
+			}
+		}
+	}
+	c.Space("paths over the index alphabet (with every neutering point; last step also from a parent object used before) and last steps over byte-patterned indices", int64(len(cases)))
 	c.ParFor(int64(len(cases)), func(w *mc.W, i int64) {
 		w.State()
 		c04EvalPath(w, cases[i])
